@@ -26,6 +26,7 @@ var c17Docs = []string{
 	`rule first salience 0x10 { when F.B then F.I = 1; } rule second "d2" { when !F.B then F.I = 2; }`,
 	`rule SpeedUp "When testcar is speeding up" salience 10 { when TestCar.SpeedUp == true && TestCar.Speed < TestCar.MaxSpeed then TestCar.Speed = TestCar.Speed + TestCar.SpeedIncrement; Log("Speed increased"); }`,
 	"rule R1 \"d\" salience -5 {\n when F.Arr[F.K] + 0x1F * 1.5e3 >= F.M[\"a\"] || !(F.S.Len() > 017) // c\n then F.I += 1; /* b */ Retract(\"R1\");\n}\nrule R2 { when F.B then F.S = 'a\\'b' + \"é\"; }",
+	`rule Q1 'it\'s' salience 1 { when F.B then F.I = 1; } rule Q2 'caf\u00e9 \t "dq" \\' { when F.B then F.I = 2; } rule Q3 "say \"hi\" \x41\101 'sq'" { when F.B then F.I = 3; }`,
 	`RULE Up 'single' SALIENCE 0x10 { WHEN TRUE && !F.B || nil == F.P THEN F.F -= .5; F.F *= 2.; F.F /= 0x1p-2; F.X().Y[1].Z(1, "two", F.W) ; }`,
 	`rule a { when 1 - -1 == 2 % 3 & 4 | 5 then F.I = -0x10; F.I = 1 -1; Complete(); } rule b salience -017 { when F.I != 1 && F.I <= 2 && F.I >= 3 && F.I > 4 then F.M["k"].V = F.Add(F.I, -1.5e-3); }`,
 }
@@ -221,7 +222,7 @@ func c17Behaviour(lib *ast.KnowledgeLibrary, keep map[string]bool) string {
 
 func C17(rep *ev.Reporter, tier string) {
 	bud := NewBudget(150 * time.Second)
-	docs := c17Docs[:3]
+	docs := c17Docs[:4]
 	if tier == "thorough" {
 		bud = NewBudget(10 * time.Minute)
 		docs = c17Docs
